@@ -518,6 +518,8 @@ func (r *rig) apply(ev Sx) Sx {
 		r.v.Flush()
 	case "stop":
 		r.v.Stop()
+	case "resettime":
+		r.v.ResetSeqTimeLogon()
 	default:
 		panic("unknown event " + SxString(ev))
 	}
